@@ -10,13 +10,16 @@ RULE = ("seeded smart-sleep histories for gateway versions 2.0-2.2 with sleepy a
         "are queued before the pump runs, under serial, random-walk and PCT reader/pump schedules (threaded) and on the asyncio loop. "
         "Every write is attributed to the line being processed by begin-markers in the device log; per sleeping node all non-stream "
         "lines addressed to it must be exactly the model's bursts, each written while its wake-up is being processed; replies to awake "
-        "nodes must be written before the next line is processed. non-trivial = a reply was withheld, a wake-up released one, and another "
+        "nodes must be written before the next line is processed; a line of one node never releases traffic for another node that is "
+        "asleep; in 30% of the threaded runs the link breaks (write error) under one wake-up burst: what was due is lost with the link and "
+        "nothing may be written on the new link until a line asks for it. non-trivial = a reply was withheld, a wake-up released one, and another "
         "node was served inside a multi-line chunk; distinct = distinct run digests")
 TIERS = {
     "quick": {"runs": 3000, "max_wall": 240, "minimise_s": 25, "chunk": 50},
     "thorough": {"runs": 120000, "max_wall": 3000, "minimise_s": 60, "chunk": 200},
 }
-FAULT_KINDS = ["multi-line chunks (several queued jobs)", "reader/pump pre-emption", "raising event callback"]
+FAULT_KINDS = ["multi-line chunks (several queued jobs)", "reader/pump pre-emption", "raising event callback", "scheduled saves while nodes sleep (persistence on)",
+               "write error under the burst of a wake-up, link re-dialled (threaded serial/TCP)"]
 REAL, STUBS = netcheck.REAL, netcheck.STUBS
 ASSUMPTIONS = ["tier-B classification of garbage lines uses the repo's own decoder/validator (consequences only)",
                "attribution of writes to lines uses begin-markers placed by a harness-side wrapper of gateway.logic (instance attribute)"]
